@@ -10,7 +10,8 @@ EXTENDS LieselGraph, TraceBatch, TLC, Integers
 
 RECURSIVE SumSeq(_, _)
 SumSeq(s, i) == IF i > Len(s) THEN 0 ELSE s[i] + SumSeq(s, i + 1)
-ApplyInt(n, args) == IF kind[n] = "c" /\ n \in {Hdr.sims[j].d : j \in 1..Len(Hdr.sims)}
+\* Hdr.factors: free-standing distribution nodes (no variable of their own; never simulated)
+ApplyInt(n, args) == IF kind[n] = "c" /\ n \in ({Hdr.sims[j].d : j \in 1..Len(Hdr.sims)} \cup SeqToSet(Hdr.factors))
                      THEN 0                       \* distribution node: log-prob of the fake dist
                      ELSE n + 2 * SumSeq(args, 1)
 DrawInt(d, r, pv) == r + 8 * (d + SumSeq(pv, 1))
